@@ -109,6 +109,9 @@ type c15Cfg struct {
 	// Unenc > 0: a value that encoding/json rejects sits beside the built value in the same field
 	// (1 NaN, 2 +Inf, 3 a func, 4 a chan); only "unenc" sinks are run on such a configuration
 	Unenc int `json:"unenc,omitempty"`
+	// Zero: the secret is the ZERO value of its type ("", 0, the zero struct) - still a secret: every sink
+	// shows the placeholder, never the zero value (both runs are identical, there is no marker to look for)
+	Zero bool `json:"zero,omitempty"`
 }
 
 type c15Desc struct {
@@ -170,6 +173,9 @@ func c15SpacedHex(s string, sep string, upper bool) string {
 
 // every text under which fmt / strconv could print the marker
 func (m c15Marker) forms() []string {
+	if m.S == "" {
+		return nil // the zero secret: nothing to mask
+	}
 	i := big.NewInt(int64(m.I))
 	return []string{
 		m.S,
@@ -432,7 +438,10 @@ func c15ValueOf(carrier errdef.Error, name string) (any, bool) {
 }
 
 func c15NewEnv(cfg c15Cfg, markHex string) (env *c15Env) {
-	env = &c15Env{cfg: cfg, mark: c15MarkerFrom(markHex), ptrs: map[uintptr]bool{}}
+	env = &c15Env{cfg: cfg, ptrs: map[uintptr]bool{}}
+	if !cfg.Zero {
+		env.mark = c15MarkerFrom(markHex)
+	}
 	defer func() {
 		if p := recover(); p != nil {
 			env.rtErr = fmt.Sprintf("PANIC while building: %v", p)
@@ -945,8 +954,8 @@ func c15RunCfg(cfg c15Cfg, sinks []c15Sink) []Case {
 			Size:       c15ShapeDepth(cfg.Shape)*10 + cfg.Pos*3 + cfg.Pub + len(o1)/200,
 			Nontrivial: c15ShapeDepth(cfg.Shape) > 0 || cfg.Pos > 0,
 			Class:      s.class(),
-			Summary: fmt.Sprintf("secret=%s attach=%s shape=%s pos=%d trace=%v pub=%d unenc=%d sink=%s",
-				cfg.SecT, cfg.Attach, c15ShapeStr(cfg.Shape), cfg.Pos, cfg.Trace, cfg.Pub, cfg.Unenc, s.String()),
+			Summary: fmt.Sprintf("secret=%s attach=%s shape=%s pos=%d trace=%v pub=%d unenc=%d zero=%v sink=%s",
+				cfg.SecT, cfg.Attach, c15ShapeStr(cfg.Shape), cfg.Pos, cfg.Trace, cfg.Pub, cfg.Unenc, cfg.Zero, s.String()),
 			Observed: obs,
 		})
 	}
@@ -1121,6 +1130,18 @@ func genC15(r *Rng, tier string) []Case {
 		}
 		emit(c15Cfg{SecT: Pick(r, []string{"string", "int", "struct", "any"}), Attach: attach, Shape: sh,
 			Pos: r.Intn(3), Trace: r.Chance(1, 3), Pub: r.Intn(3)}, nrand)
+	}
+	// zero-valued secrets: the placeholder, never the zero value
+	for i, b := range base {
+		// (no unexported positions and no pointers to composites: where fmt prints the payload itself - outside
+		// the statement - the model prints a marker token, which a zero value has none of)
+		if c15HasUnexported(b.shape) || b.shape.K == "w" || b.shape.K == "psx" {
+			continue
+		}
+		cfg := c15Cfg{SecT: []string{"string", "int", "struct"}[i%3], Attach: b.attach, Shape: b.shape, Pos: i % 3, Trace: false, Pub: i % 3, Zero: true}
+		cfg.Mark1, cfg.Mark2 = c15NewMark(r), c15NewMark(r)
+		out = append(out, c15RunCfg(cfg, c15Sinks(r, nrand))...)
+		n++
 	}
 	// a value encoding/json rejects beside the secret, in the same field: whatever json.Marshal of the
 	// error, its fields, its node or its tree node returns (an error on the unchanged tree) is free of the secret
